@@ -367,6 +367,6 @@ func init() {
 			"every accepted value and every value derivable from it through Package/SourceAddr/Versioned/Unversioned/FinalSourceAddr/ResolveRelative*/MakeRemoteSource (depth 2) is printed and re-parsed. " +
 			"non-trivial = accepted by at least one parser; distinct = input string",
 		Assumptions: []string{"== on the public address types is the library's notion of equality", "the parser of a value's kind is ParseSource / ParseFinalSource / ParseRemotePackage / ParseRegistryPackage"},
-		Phases:      []*fw.Phase{grammar, mutated, corpus},
+		Phases:      []*fw.Phase{grammar, mutated, corpus, nativeFuzzPhase("native-fuzz-round-trip", "FuzzRoundTrip", "", 4000000)},
 	})
 }
